@@ -109,7 +109,7 @@ func short(s string, n int) string {
 }
 
 var rePos = regexp.MustCompile(`^[^ ]+:\d+:\d+: `)
-var reNames = regexp.MustCompile(`"[^"]*"|[A-Za-z_][A-Za-z0-9_]*(\.[A-Za-z_][A-Za-z0-9_]*)+|\d+`)
+var reNames = regexp.MustCompile("\"[^\"]*\"|`[^`]*`|[A-Za-z_][A-Za-z0-9_]*(\\.[A-Za-z_][A-Za-z0-9_]*)+|\\d+")
 
 // errClass reduces a compiler error message to its wording (no positions, names or numbers).
 func errClass(msg string) string {
